@@ -44,6 +44,7 @@ def consumePairs : List (String × String) := [
   ("Interface", "db.Statement.ReflectValue.Addr()"),
   ("Kind", "reflect.Indirect(rv)"), ("Indirect", "reflect"),
   ("ValueOf", "pkField"), ("Set", "pkField"),
+  ("preset", ""), -- local closure of the map back-fill: does the caller's map already carry a key? (fix F26-C03)
   ("Get", "db"), ("Delete", "db.Statement.Settings")]
 
 /-- `db.AddError(x)` consumes a driver result when x is the driver's error, `rows.Close()` or the
